@@ -15,7 +15,8 @@ def keys_for(items, labels, kind, n):
         ks.append(([1, i], i))
     ks.append(([1, 1], True))
     seen = []
-    for s in labels + ["c7", "C7", " c7", "c7 ", "", "absent", "HEEL", "heel ", "é€", "toe off"]:
+    nulls = [l + "\x00" for l in labels[:2]] + [l.rstrip("\x00") for l in labels if l.endswith("\x00")] + ["\x00", "c7\x00\x00"]
+    for s in labels + ["c7", "C7", " c7", "c7 ", "", "absent", "HEEL", "heel ", "é€", "toe off"] + nulls:
         if s not in seen:
             seen.append(s)
             ks.append(([2, cps(s)], s))
@@ -26,6 +27,9 @@ def one_block(chk, rng, kind, idx):
     n = rng.choice([0, 1, 2, 3, 4, 6])
     nfr = rng.choice([1, 2, 5])
     labels = [rng.choice(api.LABEL_POOL) for _ in range(n)]
+    if n and rng.random() < 0.15:        # a name taken from a fixed-width buffer without cutting at the terminator
+        j = rng.randrange(n)
+        labels[j] = labels[j][:20] + "\x00" * rng.randrange(1, 5)
     content = {}
     items, mitems = [], []
     for j, lab in enumerate(labels):
@@ -191,8 +195,8 @@ def one_block(chk, rng, kind, idx):
 
 def run(chk):
     chk.rule = ("blocks of the four kinds (3D markers, force/torque, EMG, events) with 0-6 items whose labels are drawn from a "
-                "pool built to collide (duplicates, empty, case and blank variants, non-ASCII, 255 characters); keys: every "
-                "integer in [-n-2, n+2], True, every pool label and near-miss variants, None, float, bytes, list, tuple, an "
+                "pool built to collide (duplicates, empty, case and blank variants, non-ASCII, 255 characters, trailing NULs); keys: every "
+                "integer in [-n-2, n+2], True, every pool label and near-miss variants (incl. the label plus / minus trailing NULs), None, float, bytes, list, tuple, an "
                 "arbitrary object, item objects (the present object, an equal copy, an absent one, an item of another class); "
                 "observed: len, iteration order (one pass, two simultaneous iterators, a nested loop, a suspended iterator), block[key], key in block, and that the block's items and encoding are unchanged; "
                 "non-trivial = at least one item")
